@@ -153,4 +153,163 @@ theorem handleReqObj_eq_solo (cfg : Cfg) (ttl : Kind → Nat) (now : Nat) (st : 
       · simp [h1, h2, reqObjOutcome, hf.2.2.1, hf.2.2.2.2]
     · simp [h1, reqObjOutcome, hf.2.1, hf.2.2.2.1]
 
+/-! ### mark-as-used consumers (s2s nonce loop, DPoP jti) as threads; every endpoint = its threads -/
+
+/-- outcome and store after a mark consumer ran alone through PutIfAbsent-under-the-mutex -/
+def soloMark (cfg : Cfg) (st : Store) (now : Nat) (r : MarkReq) : Outcome × Store :=
+  match stGet cfg.expInclusive st now r.key with
+  | some _ => (.used, st)
+  | none => (.ok, stPut st r.key ⟨markVal r.kind, now + cfg.ttl (.mark r.kind)⟩)
+
+theorem solo_mark_run (cfg : Cfg) (r : MarkReq) (hl : cfg.mark r.kind = .locked) (hfg : r.failGet = false) (hfs : r.failSet = false)
+    (st : Store) (now : Nat) :
+    let w := run cfg soloSched { store := st, now := now, lock := none, ths := [.mark r .start 0] }
+    (w.ths[0]?.bind Thread.outcome) = some (soloMark cfg st now r).1 ∧ w.store = (soloMark cfg st now r).2 ∧ w.lock = none := by
+  cases hget : stGet cfg.expInclusive st now r.key with
+  | none =>
+    simp [run, soloSched, applyEv, stepW, stepThread, stepMark, soloMark, hget, Thread.outcome, Cfg.markLocks, hl, unlock, hfg, hfs]
+  | some v =>
+    simp [run, soloSched, applyEv, stepW, stepThread, stepMark, soloMark, hget, Thread.outcome, Cfg.markLocks, hl, unlock, hfg]
+
+/-- the store the threads of a request leave when they run one after the other, each alone -/
+def threadsStore (cfg : Cfg) (now : Nat) (st : Store) (rs : List Req) : Store := (soloCalls cfg now st rs).2
+
+theorem threadsStore_nil (cfg : Cfg) (now : Nat) (st : Store) : threadsStore cfg now st [] = st := rfl
+
+theorem threadsStore_cons (cfg : Cfg) (now : Nat) (st : Store) (r : Req) (rest : List Req) :
+    threadsStore cfg now st (r :: rest)
+      = threadsStore cfg now (run cfg soloSched { store := st, now := now, lock := none, ths := [r.thread] }).store rest := rfl
+
+theorem threadsStore_burns (cfg : Cfg) (now : Nat) (rs : List BurnReq) : ∀ st : Store,
+    threadsStore cfg now st (rs.map Req.burn) = soloStores cfg now st rs := by
+  induction rs with
+  | nil => intro st; rfl
+  | cons r rest ih => intro st; simp only [List.map_cons, threadsStore_cons, soloStores, Req.thread]; exact ih _
+
+/-- the s2s nonce loop = its mark threads, one after the other -/
+theorem s2sLoop_eq_threads (cfg : Cfg) (hl : cfg.mark .s2s = .locked) (now : Nat) (ns : List String) : ∀ st : Store,
+    threadsStore cfg now st ((s2sMarks ⟨cfg.expInclusive, now, cfg.ttl⟩ st ns).map Req.mark) = (s2sLoop ⟨cfg.expInclusive, now, cfg.ttl⟩ st ns).2 := by
+  induction ns with
+  | nil => intro st; rfl
+  | cons n rest ih =>
+    intro st
+    unfold s2sMarks s2sLoop
+    by_cases hn : n = ""
+    · simp [hn, threadsStore_nil]
+    · simp only [hn, if_false]
+      have h := solo_mark_run cfg ({ kind := .s2s, id := n } : MarkReq) hl rfl rfl st now
+      simp only at h
+      unfold pifSeq
+      simp only [s2sKey] at *
+      cases hg : stGet cfg.expInclusive st now ⟨.mark .s2s, n⟩ with
+      | some v =>
+        simp only [List.map_cons, List.map_nil, threadsStore_cons, threadsStore_nil, Req.thread]
+        rw [h.2.1]; simp [soloMark, MarkReq.key, hg]
+      | none =>
+        simp only [List.map_cons, threadsStore_cons, Req.thread]
+        rw [h.2.1]
+        have hs : (soloMark cfg st now { kind := .s2s, id := n }).2 = stPut st ⟨.mark .s2s, n⟩ ⟨markVal .s2s, now + cfg.ttl (.mark .s2s)⟩ := by
+          simp [soloMark, MarkReq.key, hg]
+        rw [hs]
+        exact ih _
+
+theorem threadsStore_one_burn (cfg : Cfg) (now : Nat) (st : Store) (r : BurnReq) :
+    threadsStore cfg now st [.burn r] = (run cfg soloSched { store := st, now := now, lock := none, ths := [.burn r .start 0] }).store := rfl
+
+theorem threadsStore_one_mark (cfg : Cfg) (now : Nat) (st : Store) (r : MarkReq) :
+    threadsStore cfg now st [.mark r] = (run cfg soloSched { store := st, now := now, lock := none, ths := [.mark r .start 0] }).store := rfl
+
+theorem toBurn_props (pk : Pkce) (f : TokenForm) (r : BurnReq) (h : f.toBurn pk = some r) :
+    r.kind = .code ∧ r.failGet = false ∧ r.failDel = false := by
+  unfold TokenForm.toBurn at h
+  cases hc : f.code with
+  | none => simp [hc] at h
+  | some code => simp only [hc, Option.some.injEq] at h; subst h; exact ⟨rfl, rfl, rfl⟩
+
+theorem toBurn_none (pk : Pkce) (f : TokenForm) (h : f.toBurn pk = none) : f.code = none := by
+  unfold TokenForm.toBurn at h
+  cases hc : f.code with
+  | none => rfl
+  | some code => simp [hc] at h
+
+/-- **every endpoint = its threads** (store level): whatever request of whatever endpoint, the request-level handler leaves
+    the one-time stores exactly as the threads `formThreads` leave them when they run one after the other, each alone -/
+theorem handleForm_eq_threads (cfg : Cfg) (hg : cfg.gad = .locked) (hm : ∀ m, cfg.mark m = .locked) (hx : ∀ b, cfg.ext b = false)
+    (pk : Pkce) (now : Nat) (st : Store) (f : Form)
+    (hp : ∀ s, (handleForm ⟨cfg.expInclusive, now, cfg.ttl⟩ pk st f).1 ≠ .panic s) :
+    threadsStore cfg now st (formThreads ⟨cfg.expInclusive, now, cfg.ttl⟩ pk st f) = (handleForm ⟨cfg.expInclusive, now, cfg.ttl⟩ pk st f).2 := by
+  cases f with
+  | token t =>
+    simp only [formThreads, handleForm, handleToken]
+    by_cases ha : grantAction t.grantType = "handleAccessTokenRequest"
+    · simp only [ha, if_true]
+      cases htb : t.toBurn pk with
+      | none =>
+        have hc := toBurn_none pk t htb
+        simp [handleCode, hc, threadsStore_nil]
+      | some r =>
+        obtain ⟨hk, hfg, hfd⟩ := toBurn_props pk t r htb
+        have h1 := solo_code_run cfg hg (hx .code) r hk hfg hfd st now
+        have h2 := handleCode_eq_solo cfg cfg.ttl pk now st t r htb
+        simp only [threadsStore_one_burn]
+        rw [h1.2.1, h2.2]
+    · simp only [ha, if_false]
+      by_cases hs : grantAction t.grantType = "handleS2SAccessTokenRequest"
+      · simp only [hs, if_true]
+        cases hasr : t.assertion with
+        | none => simp [threadsStore_nil]
+        | some nonces =>
+          simp only
+          by_cases hc : (!t.submission || !t.scope || t.clientId.isNone) = true
+          · simp [hc, threadsStore_nil]
+          · simp only [hc, Bool.false_eq_true, if_false]
+            rw [handleS2S_snd]
+            exact s2sLoop_eq_threads cfg (hm .s2s) now nonces st
+      · simp only [hs, if_false]
+        split <;> simp [threadsStore_nil]
+  | response r =>
+    simp only [formThreads, handleForm, handleResponse] at hp ⊢
+    cases hs : r.state with
+    | none => simp [threadsStore_nil]
+    | some state =>
+      cases hv : r.vpToken with
+      | none => simp [threadsStore_nil]
+      | some ps =>
+        cases ps with
+        | nil => simp [threadsStore_nil]
+        | cons p ps =>
+          simp only [hs, hv] at hp ⊢
+          by_cases hk : r.stateKnown = true
+          · by_cases ht : r.tenantOk = true
+            · simp only [hk, ht, Bool.not_true, Bool.or_self, Bool.false_eq_true, if_false] at hp ⊢
+              rw [threadsStore_burns]
+              exact (validateNonce_eq_threads cfg hg (hx .vpNonce) cfg.ttl now st (p :: ps) state hp).1
+            · simp [hk, ht, threadsStore_nil]
+          · simp [hk, threadsStore_nil]
+  | reqObj r =>
+    simp only [formThreads, handleForm, threadsStore_one_burn]
+    have h1 := solo_burn_run cfg hg (reqObjReq r ((stGet cfg.expInclusive st now (reqObjKey r.id)).getD "")) (by simp [reqObjReq])
+      (hx _) rfl rfl rfl st now
+    have h2 := handleReqObj_eq_solo cfg cfg.ttl now st r ((stGet cfg.expInclusive st now (reqObjKey r.id)).getD "")
+      (by intro x hx'; rw [hx']; rfl)
+    rw [h1.2.1, h2.2]
+  | landing t =>
+    simp only [formThreads, handleForm]
+    by_cases ht : t = ""
+    · simp [ht, handleLanding, threadsStore_nil]
+    · simp only [ht, if_false, threadsStore_one_burn]
+      have h1 := solo_plain_run cfg hg (landingReq t) (Or.inl rfl) (hx _) rfl rfl rfl st now
+      have h2 := handleLanding_eq_solo cfg cfg.ttl now st t ht
+      exact h1.2.1.trans h2.2.symm
+  | dpop r =>
+    simp only [formThreads, handleForm, handleDpop]
+    cases h1 : r.parses <;> cases h2 : r.matchOk <;> cases h3 : r.athPresent <;> cases h4 : r.athOk <;>
+      simp [threadsStore_nil]
+    simp only [threadsStore_one_mark]
+    have h := solo_mark_run cfg ({ kind := .jti, id := r.jti } : MarkReq) (hm .jti) rfl rfl st now
+    rw [h.2.1]
+    unfold soloMark pifSeq
+    simp only [MarkReq.key, jtiKey]
+    cases hgt : stGet cfg.expInclusive st now ⟨.mark .jti, r.jti⟩ <;> simp
+
 end Nuts.C05
